@@ -678,7 +678,7 @@ Section Round.
   (* the constructor on what extract_written returns *)
   Lemma construct_written (oids sids : list text) (mx : matrix) (md : option (list text)) (name : option text) :
     length mx = length oids -> rect (length sids) mx -> NoDup oids -> NoDup sids ->
-    (if negb (in_shape (length oids) (length sids) (all_triples 0 mx)) then RErr E_VALUE
+    (if negb (in_shape (length oids) (length sids) (all_triples 0 mx)) then RErr E_TABLE
      else if tdup oids || tdup sids then RErr E_TABLE
      else ROk (mkX oids sids (dense_of (length oids) (length sids) (all_triples 0 mx))
                    (match md with
